@@ -38,10 +38,10 @@ With(row, n, v) == [x \in DOMAIN row \cup {n} |-> IF x = n THEN v ELSE row[x]]
 IdsNonNull(ds) == \A r \in ds.rows : \A i \in IdsOf(ds) : ~IsNull(r[i])
 KeysUnique(ds) == \A r1, r2 \in ds.rows : Rst(r1, IdsOf(ds)) = Rst(r2, IdsOf(ds)) => r1 = r2
 AtMostOneRowWithoutIds(ds) == IdsOf(ds) = {} => Cardinality(ds.rows) <= 1
-TagOfType(t) == CASE t = "Integer" -> {1} [] t = "Number" -> {1, 2, 11} [] t = "Boolean" -> {3}
+TagOfType(t) == CASE t = "Integer" -> {1} [] t = "Number" -> {1, 2, 11, 12} [] t = "Boolean" -> {3}
                   [] t = "String" -> {4} [] t = "Date" -> {5} [] t = "Time_Period" -> {6}
                   [] t = "Time" -> {7} [] t = "Duration" -> {8} [] OTHER -> {0}
-ValuesTyped(ds) == \A r \in ds.rows : \A c \in ds.comps : IsNull(r[c.n]) \/ r[c.n][1] \in TagOfType(c.t)
+ValuesTyped(ds) == \A r \in ds.rows : \A c \in ds.comps : IsNull(r[c.n]) \/ IsUndet(r[c.n]) \/ r[c.n][1] \in TagOfType(c.t)
 RowsShaped(ds) == \A r \in ds.rows : DOMAIN r = AllNames(ds)
 WellFormed(ds) == RowsShaped(ds) /\ IdsNonNull(ds) /\ KeysUnique(ds) /\ AtMostOneRowWithoutIds(ds) /\ ValuesTyped(ds)
 
@@ -64,7 +64,7 @@ BinType(op, a, b) ==
       [] op = "mod" -> NumLub(a, b)
       [] op \in BoolResult -> "Boolean"
       [] op = "||" -> "String"
-      [] op = "nvl" -> IF a = "Null" THEN b ELSE IF a = "Integer" /\ b = "Number" THEN "Number" ELSE a
+      [] op = "nvl" -> IF a = "Null" THEN b ELSE IF b = "Null" \/ a = b THEN a ELSE NumLub(a, b)
 FnType(op, ts, nargs) ==
     CASE op \in {"round", "trunc"} -> IF nargs[2] THEN "Integer" ELSE "Number"
       [] op \in {"substr", "replace"} -> "String"
